@@ -37,8 +37,8 @@ def demo(wt, src, k):
     return rc, out
 
 
-def confirm(pid, k):
-    base = "/tmp/mut/%s" % pid
+def confirm(pid, k, root="/tmp/mut", outk=None):
+    base = "%s/%s" % (root, pid)
     wt, out = base + "/wt", base + "/out"
     patch, dm = "%s/patch%s.diff" % (out, k), "%s/demo%s.rs" % (out, k)
     sh("git checkout -- . && git clean -fdq tests", cwd=wt)
@@ -59,7 +59,7 @@ def confirm(pid, k):
     ok = (log["demo_pristine_rc"] == 0 and log["demo_patched_rc"] != 0 and passed >= 239 + 6 and failed == known)
     print(pid, k, "confirmed" if ok else "NOT confirmed", json.dumps(log)[:400])
     if ok:
-        d = os.path.join(SEEDED, "%s-%s" % (pid, k))
+        d = os.path.join(SEEDED, "%s-%s" % (pid, outk or k))
         os.makedirs(d, exist_ok=True)
         shutil.copy(patch, os.path.join(d, "patch.diff"))
         shutil.copy(dm, os.path.join(d, "demo.rs"))
@@ -112,7 +112,7 @@ def run(name, checks=None, tier="quick"):
 if __name__ == "__main__":
     cmd = sys.argv[1]
     if cmd == "confirm":
-        confirm(sys.argv[2], sys.argv[3])
+        confirm(*sys.argv[2:6])
     elif cmd == "run":
         run(sys.argv[2], sys.argv[3:] or None)
     elif cmd == "runall":
